@@ -4,8 +4,9 @@ From Coq Require Import Bool List String.
 From SSJ Require Import SkeletonLang SkeletonGen Skeleton.
 Import ListNotations.
 
-(* every exit (return, raise, any combination of validation outcomes and early returns) of
-   every entry point hands the tokenizer's return_set flag back as it was received *)
+(* every exit (return, raise -- by a validation OR by any work statement, e.g. a pandas error or a
+   tokenizer error in the middle of a join --, any combination of validation outcomes and early
+   returns) of every entry point hands the tokenizer's return_set flag back as it was received *)
 Theorem C12_flag_restored :
   forall name sk, In (name, sk) all_entry_points ->
   forall (o : oracle) (f0 s0 : bool) (w0 : nat),
@@ -44,3 +45,23 @@ Example C12_nonvacuous :
   fst (run (fun n => Nat.eqb n 4) 0 {| flag := false; saved := false; work_done := 0 |} sk_overlap_join_py) = Raised /\
   flag (snd (run (fun n => Nat.eqb n 4) 0 {| flag := false; saved := false; work_done := 0 |} sk_overlap_join_py)) = false.
 Proof. vm_compute. repeat split. right; right; right; right; left; reflexivity. Qed.
+
+(* ---- tie: the public wrappers jaccard_join_py / cosine_join_py / dice_join_py as REGENERATED from the
+   source on this run (Gen/WrapperGen.v: DataFrames as values of Model/Frame.v, validators and the
+   tokenizer flag handled by the shape checks of harness/translate/wrappers.py) compute -- through
+   dropna / projection / split_table / the per-chunk loop / concat / missing-value pairs / _id --
+   a frame whose header is header_spec and whose rows are, up to the order within a chunk, the rows
+   of api_join with the declared projection *)
+From SSJ Require Import Frame WrapperGen WrapperRefineFrame WrapperRefineChunks WrapperRefineMissing WrapperRefineCore WrapperRefine WrapperRefineClosed WrapperRefineApi WrapperRefineEnd.
+Theorem generated_jaccard_wrapper_refines_model :
+  ltac:(let t := type of jaccard_join_rows_end_to_end in exact t).
+Proof. exact jaccard_join_rows_end_to_end. Qed.
+Print Assumptions generated_jaccard_wrapper_refines_model.
+Theorem generated_cosine_wrapper_refines_model :
+  ltac:(let t := type of cosine_join_rows_end_to_end in exact t).
+Proof. exact cosine_join_rows_end_to_end. Qed.
+Print Assumptions generated_cosine_wrapper_refines_model.
+Theorem generated_dice_wrapper_refines_model :
+  ltac:(let t := type of dice_join_rows_end_to_end in exact t).
+Proof. exact dice_join_rows_end_to_end. Qed.
+Print Assumptions generated_dice_wrapper_refines_model.
